@@ -22,12 +22,13 @@ class C09(BaseCheck):
           'attempt and the start of the next are >= initial_wait, grow until they reach max_wait and never '
           'exceed it; (c) bounded recovery: a request arrives at the endpoint within max_wait + attempt '
           'duration + delta after it became reachable; (d) no connect attempt after DispatcherClose(). '
-          'non-trivial = at least one outage with >= 2 reconnect attempts; distinct by (stack, params, '
+          'Every 4th case instead has 2-3 endpoints that all become unreachable at once and one of them '
+          'returns ((c) and (d) only). non-trivial = at least one outage with >= 2 reconnect attempts; distinct by (stack, params, '
           'outage classes, #retries bucket, recovery phase bucket)')
   ANCHORS = ('scales.resurrector:ResurrectorSink._OnSinkFaulted', 'scales.resurrector:ResurrectorSink._TryResurrect',
              'scales.resurrector:ResurrectorSink.AsyncProcessRequest', 'scales.resurrector:ResurrectorSink.Close')
   REQUIRED_ANCHORS = ANCHORS
-  REQUIRED_CLASSES = ('thrift', 'mux', 'outage:refuse', 'outage:blackhole', 'down-at-first-connect', 'recovered',
+  REQUIRED_CLASSES = ('thrift', 'mux', 'multi-endpoint', 'outage:refuse', 'outage:blackhole', 'down-at-first-connect', 'recovered',
                       'fail-fast-seen', 'backoff-capped', 'closed-while-down')
   ASSUMPTIONS = ('initial_wait_interval > 1 (the implementation\'s x**exponent back-off only grows above 1)',
                  'black-holed connects give up after 3 s in these scenarios (SYN timeout shortened so that '
@@ -38,7 +39,67 @@ class C09(BaseCheck):
   THOROUGH_WALL = 480
   MIN_DISTINCT = 10
 
+  def _multi(self, env, rng, idx, tier):
+    """Several endpoints, all unreachable at once, one of them returns: traffic must reach it
+    within one maximum retry interval, with no server-set change; silence after close."""
+    from vlib import servers
+    from vlib.stackworld import StackWorld
+    out = CaseResult()
+    kind = ('thrift', 'mux')[(idx // 4) % 2]
+    init, mx, ex = rng.choice([(5, 60, 1.2), (2, 20, 1.5), (1.5, 10, 1.2)])
+    delta = rng.choice([0.25, 0.5])
+    n = rng.choice([2, 3])
+    balancer = rng.choice(['aperture', 'heap'])
+    w = StackWorld(env, rng, kind=kind, n_eps=n, balancer=balancer, timeout=1.0, policy=servers.DefaultPolicy(0.002),
+                   resurrector={'initial_wait_interval': init, 'max_wait_interval': mx, 'backoff_exponent': ex},
+                   connect_latency=0.001)
+    facts = {'stack': kind, 'params': [init, mx, ex], 'endpoints': n, 'balancer': balancer}
+    classes = {kind, 'multi-endpoint'}
+    for s_ in w.servers:
+      s_.sim.syn_timeout = 3.0
+
+    def tick(k):
+      for _ in range(k):
+        w.call('echo', None, timeout=1.0)
+        env.advance(delta)
+    tick(rng.randint(4, 12))
+    mode = rng.choice(['refuse', 'blackhole'])
+    for s_ in w.servers:
+      s_.sim.mode = mode
+      for c in s_.sim.conns:
+        if not c.client_closed:
+          c.close_by_server('rst')
+    t_down = env.now
+    tick(int(rng.choice([20, 60, 150]) * (0.5 + rng.random()) / delta))
+    ret = rng.choice(w.servers)
+    ret.sim.mode = 'up'
+    r = env.now
+    tick(int((mx + 10) / delta))
+    w.close()
+    t_close = env.now
+    env.advance(3 * mx + 10)
+    arrived = [q['vt'] for q in ret.requests if q['vt'] >= r]
+    bound = r + mx + 3.2 + delta + 0.5
+    out.obligations += 2
+    if not arrived or min(arrived) > bound:
+      out.violate('recovery:too-late', 'all %d endpoints were unreachable for %.0fs; %s came back and received no '
+                  'request within max wait %.0fs + attempt + delta (first arrival: %s)' % (
+                    n, r - t_down, ret.ep, mx, ('%.1fs' % (min(arrived) - r)) if arrived else 'never'),
+                  dict(facts, multi=True), {'attempts_at_returning': [(round(a[0] - r, 2), a[1]) for a in ret.sim.connect_attempts][-8:]})
+    else:
+      classes.add('recovered')
+    late = [a for s_ in w.servers for a in s_.sim.connect_attempts if a[0] > t_close + EPS]
+    if late:
+      out.violate('close:reconnect-after-close', '%d connect attempt(s) after DispatcherClose()' % len(late), facts)
+    out.classes = sorted(classes)
+    out.nontrivial = True
+    out.extra = {'calls': len(w.calls), 'multi_cases': 1}
+    out.sig = ('multi', kind, balancer, n, (init, mx, ex), mode)
+    return out
+
   def run_case(self, env, rng, idx, tier):
+    if idx % 4 == 3:
+      return self._multi(env, rng, idx, tier)
     from scales.dispatch import ScalesError
     from scales.message import FailedFastError, TimeoutError as ScalesTimeout
     from vlib import servers
